@@ -470,6 +470,19 @@ class CHECK(vlib.Check):
                 st = frame(body, size=sz) + frame(body)
                 add("gw-c-size", "minigw|" + chunks_hex(st, [8]))
                 add("gw-c-size", "microgw,%d|%s" % (rng.choice([16, 256]), chunks_hex(st, [8])))
+        # C gateways: a second frame whose size sits at the capacity the first frame left behind (mini: 2*(size+8)
+        # bytes including the 8-byte header; micro: the caller's buffer), +-1 and +-8 around it
+        for e in gwmsgs[:3]:
+            body = bytes(e.b)
+            cap = 2 * (len(body) + 8)
+            for s2 in sorted(set([1, 7, 8, 9, cap - 17, cap - 9, cap - 8, cap - 7, cap - 1, cap, cap + 1])):
+                if s2 > 0:
+                    add("gw-c-capacity", "minigw|%s;%s" % (frame(body).hex(), frame(rand_bytes(rng, s2)).hex()))
+            for bufsz in (64, 256):
+                for s2 in (bufsz - 9, bufsz - 8, bufsz - 7, bufsz, bufsz + 1):
+                    add("gw-c-capacity", "microgw,%d|%s" % (bufsz, frame(rand_bytes(rng, max(1, s2))).hex()))
+        for s1 in (1, 2, 7, 8, 9):
+            add("gw-c-capacity", "minigw|" + frame(rand_bytes(rng, s1)).hex())
         for _ in range(40 if not big else 400):
             n = rng.choice([1, 7, 8, 9, 20, 60])
             b = rand_bytes(rng, n)
@@ -624,9 +637,9 @@ class CHECK(vlib.Check):
         # bool array holding bytes other than 0/1
         add("directed-bool", "msg|" + (w32(PM) + w32(0) + w32(1) + w32(2) + b"b\0" + w32(TC["BOOL"]) + w32(3) + b"\x01\xff\x02").hex())
         # the MicroMessage cases run in a forked child each (see the harness); keep an evenly spread sample of them
-        micro = [i for i, (st, c) in enumerate(out) if c.startswith("micro")]
+        micro = [i for i, (st, c) in enumerate(out) if c.startswith("micro") and not st.startswith("gw-c-capacity")]
         keep = set(micro[:: max(1, len(micro) // (50 if not big else 600))])
-        out = [x for i, x in enumerate(out) if not x[1].startswith("micro") or i in keep]
+        out = [x for i, x in enumerate(out) if not x[1].startswith("micro") or x[0].startswith("gw-c-capacity") or i in keep]
         return out
 
     def nontrivial(self, case):
